@@ -1339,11 +1339,11 @@ pub fn run_case(c: &Case, rep: &mut Report, keep_sample: bool) -> usize {
 /// The indices of one pass: every variant of every class.
 fn schedule(tier: &str, pass: u64) -> Vec<(&'static str, u64)> {
     // frame-slots first: its class representatives (slot sizes around the powers of two, every role) are deterministic
-    // then the classes about process-global tables (deterministic representatives: multi-runtime 0..4, compile-race 0..3)
+    // then the classes about process-global tables (deterministic representatives: multi-runtime 0..4 (sequential | threads) x (names | scopes), compile-race 0..3 (one per variant))
     let per: [(&'static str, u64); 7] = if tier == "thorough" {
         [("frame-slots", 24), ("multi-runtime", 16), ("compile-race", 12), ("swap-rust", 8), ("swap-script", 8), ("refcount-storm", 12), ("into-func", 8)]
     } else {
-        [("frame-slots", 8), ("multi-runtime", 6), ("compile-race", 3), ("swap-rust", 3), ("swap-script", 4), ("refcount-storm", 6), ("into-func", 4)]
+        [("frame-slots", 8), ("multi-runtime", 8), ("compile-race", 4), ("swap-rust", 3), ("swap-script", 4), ("refcount-storm", 6), ("into-func", 4)]
     };
     let mut v = vec![];
     for (class, n) in per {
